@@ -164,7 +164,7 @@ where
             encoding,
             from_header.line_encoding(),
             comp_dir,
-            comp_name,
+            comp_name.clone(),
             comp_file_info,
         );
 
@@ -176,8 +176,14 @@ where
             // something there makes the indexing easier.
             0
         } else {
-            // We don't add the first file to `files`, but still allow
-            // it to be referenced from converted instructions.
+            // The first file (index 0, the primary source file) is not among
+            // the entries added below, but rows may name it: give it an entry
+            // of its own, so that `files` is indexed by the file index.
+            files.push(program.add_file(
+                comp_name,
+                program.default_directory(),
+                comp_file_info,
+            ));
             1
         };
 
@@ -274,13 +280,21 @@ where
                                     program.row().op_index = from_row.op_index();
                                     program.row().file = {
                                         let file = from_row.file_index();
-                                        if file > files.len() as u64 {
+                                        // `files` starts at file 1 for version <= 4
+                                        // (where 0 is invalid) and at file 0 from
+                                        // version 5 on.
+                                        let index = if program.version() <= 4 {
+                                            if file == 0 {
+                                                return Err(write::ConvertError::InvalidFileIndex);
+                                            }
+                                            file - 1
+                                        } else {
+                                            file
+                                        };
+                                        if index >= files.len() as u64 {
                                             return Err(write::ConvertError::InvalidFileIndex);
                                         }
-                                        if file == 0 && program.version() <= 4 {
-                                            return Err(write::ConvertError::InvalidFileIndex);
-                                        }
-                                        files[(file - 1) as usize]
+                                        files[index as usize]
                                     };
                                     program.row().line = match from_row.line() {
                                         Some(line) => line.get(),
